@@ -91,6 +91,15 @@ func (s *sched) abort() {
 // current returns the task of the calling goroutine. A goroutine that is not registered but
 // carries a task id in its context is a goroutine the library spawned for that task.
 func (s *sched) current(ctx context.Context) *task {
+	// fast path for checks that run without scheduler tasks (finding the goroutine id is expensive)
+	s.mu.Lock()
+	idle := len(s.byGID) == 0 && len(s.tasks) == 0
+	s.mu.Unlock()
+
+	if idle {
+		return nil
+	}
+
 	gid := curGoID()
 
 	s.mu.Lock()
